@@ -6,7 +6,28 @@ let estr (e : mentry) =
   Printf.sprintf "%s %s %s %s" (render e.mk) (n_to_string e.mseq)
     (match e.mkind with KDel -> "del" | KVal -> "val") (render e.mval)
 
-let run (id : string) (_hdr : string list) (lines : string list list) (out : string -> unit) =
+(* mode=pool: the memtable pool (MemPool.v) *)
+let run_pool (id : string) (lines : string list list) (out : string -> unit) =
+  let open MemPool in
+  let p = ref pl_empty in
+  let pr x = out (id ^ " " ^ x) in
+  Stdlib.List.iter (fun l ->
+      match l with
+      | ["put"; k; v; s] -> p := pl_put !p (bytes_of_token k) (bytes_of_token v) (n_of_string s)
+      | ["del"; k; s] -> p := pl_del !p (bytes_of_token k) (n_of_string s)
+      | ["switch"] -> p := pl_switch !p
+      | ["get"; k] ->
+        pr ("G " ^ (match pl_get !p (bytes_of_token k) with
+            | None -> "absent" | Some None -> "deleted" | Some (Some v) -> "v:" ^ render v))
+      | ["tables"] ->
+        let ts = pl_tables !p in
+        pr (Printf.sprintf "T n=%d %s" (Stdlib.List.length ts)
+              (Stdlib.String.concat "," (Stdlib.List.map (fun t ->
+                   Printf.sprintf "%d%s" (Stdlib.List.length t.mt_entries) (if t.mt_imm then "i" else "a")) ts)))
+      | _ -> failwith ("C18 pool: bad line " ^ Stdlib.String.concat " " l)) lines
+
+let run (id : string) (hdr : string list) (lines : string list list) (out : string -> unit) =
+  if Stdlib.List.mem "mode=pool" hdr then run_pool id lines out else
   let m = ref mt_empty in
   let pr x = out (id ^ " " ^ x) in
   let h = ref (h_new mt_empty) in
